@@ -67,7 +67,12 @@ Vmf(r) ==
   LET dot == FSum([a \in 1..r.D |-> FMul(r.mean[a][1], r.z[a][1])])
   IN << <<"unit_norm", CloseRel(Norm2(r.z), FOne, DS)>>,
         <<"kernel_args", KernOK(Kern(r, "vmf_lognorm", 1), r.kappa, FZero)>>,
-        <<"value", ValueOK(r, <<FMul(r.kappa, dot), FNeg(Kern(r, "vmf_lognorm", 1).val)>>)>> >>
+        <<"value", ValueOK(r, <<FMul(r.kappa, dot), FNeg(Kern(r, "vmf_lognorm", 1).val)>>)>>,
+        \* two points of one call: ln p(z) - ln p(z2) = kappa mu^T (z - z2); the normaliser cancels, the differences are
+        \* formed in double precision by the encoder, so this resolves far below the 20-bit value check
+        <<"pair_difference", (HasKey(r, "has_pair") /\ r.has_pair) =>
+              LET ts == [a \in 1..r.D |-> FMul(r.kappa, FMul(r.mean[a][1], r.dz[a][1]))]
+              IN  IsFlt(r.dlp) /\ Close(r.dlp, FSum(ts), FAdd(FSumAbs(ts), FPow2(-40)), 256)>> >>
 Bingham(r) ==
   LET D == r.D
       qterms == [e \in 1..D |-> FMul(ZAbs2(Proj(r, e)), r.lam[e])]
